@@ -1,8 +1,8 @@
 """C08 — an interrupted single-file external-data save never damages an existing data file
 (DESIGN.md section 5, C08).
 
-Model: lean/IrVerif/Model/AtomicSave.lean (driver commands `asave.run`, `asave.image`, `asave.writeat`,
-`asave.resolve`).
+Model: lean/IrVerif/Model/AtomicSave.lean + Model/AtomicSaveLinks.lean (driver commands `asave.run`, `asave.runL`,
+`asave.resolveL`, `asave.parvalid`, `asave.image`, `asave.writeat`, `asave.resolve`).
 
 Correspondence: a fault shim replaces, inside `onnx_ir.external_data` only, `os.replace/remove/rmdir`
 (+ every other mutating os/shutil call as an unexpected effect), `tempfile.mkdtemp`, `shutil.copymode` and
@@ -14,12 +14,28 @@ the points with a `BaseException`, (a'') with `FileNotFoundError` at the clean-u
 (b) in a forked child that `os._exit`s at k, (c) with a second fault / a process exit while the handlers
 of the first failure run; directory listing, file bytes / modes / inode identity, symlinks,
 `ExternalTensor.valid()`, mmap state, `tobytes()` and the bytes embedded for small tensors are compared
-with the model's predicted post-state. Parallel-writer runs are compared on the schedule each run
-observed (model kind `writer`). Oracle-only: concurrent shard drivers, fd fast paths, symlinked directory
-components, a directory as destination, tensors that fail by themselves, os.path calls as fault points.
+with the model's predicted post-state.
+
+Symbolic links are file-system objects of the model (`saveL`): link table (location, absolute/relative text with
+`..`), POSIX resolution `walk`; compared per case: islink / realpath / destination_path / the entry os.replace
+overwrites / the directory of the temporary directory (`asave.resolveL`), per run: the link table afterwards and the
+bytes reachable through the requested path (also at every crash point). Families `gen_links`, `gen_links_rich`
+(symlinked parent directories, chains <= 4, dangling chains, `..`, cycles = oracle only), `gen_edge`.
+
+Parallel writer: (1) real thread pool: the observed schedule is checked to be a word of the model's trace language
+(`asave.parvalid`) and replayed (model kind `writer`); (2) family `det`: `ThreadPoolExecutor`/`as_completed` are
+replaced inside `onnx_ir.external_data` by a deterministic, seeded executor (real worker threads, one task at a
+time, FIFO window of max_workers started tasks, started tasks run on after a failure): the schedule is a function
+of the seed, so every effect index is a fault point in parallel mode too — exception, BaseException, process exit,
+fault sequences — and the whole marked writer block (failures inside it, run-on effects, closing of the handles) is
+replayed by the model (`saveMarked`, kind `marked`). Concurrent shard drivers under the same executor: model
+`saveShardedAll` (kind `shardedAll`; one temporary directory at a time, shard saves atomic w.r.t. each other).
+Oracle-only: concurrent shard drivers / parallel writer under the real pool when a fault is injected (post-state
+compared for single faults), fd fast paths, a directory as destination, tensors that fail by themselves, os.path
+calls as fault points, cyclic links.
 
 Oracle (independent of the model): the English property evaluated on the real directory and the real
-tensor objects.
+tensor objects — incl. through the requested path, link by link, and per shard file across a sharded save.
 """
 from __future__ import annotations
 
@@ -54,6 +70,15 @@ THEOREMS = [
     "IrVerif.AtomicSave.C08_unload_fs_frame",
     "IrVerif.AtomicSave.C08_unload_exception",
     "IrVerif.AtomicSave.C08_unload_exception_multi",
+    "IrVerif.AtomicSave.C08_destination_entry",
+    "IrVerif.AtomicSave.C08_symlink_kept",
+    "IrVerif.AtomicSave.C08_crash_links",
+    "IrVerif.AtomicSave.C08_exception_links",
+    "IrVerif.AtomicSave.C08_invalidate_iff_links",
+    "IrVerif.AtomicSave.C08_parallel_language",
+    "IrVerif.AtomicSave.C08_crash_schedule",
+    "IrVerif.AtomicSave.C08_exception_schedule",
+    "IrVerif.AtomicSave.C08_sharded_crash",
 ]
 ASSUMPTIONS = [
     "os.replace is atomic; tempfile.mkdtemp returns a directory that did not exist (built into the model's Path type; "
@@ -62,6 +87,11 @@ ASSUMPTIONS = [
     "(no fsync in the code) outside the model",
     "a failing effect has no effect, except a failing write which may have written a prefix of its bytes",
     "POSIX rename semantics (Windows not modelled)",
+    "path resolution: the kernel and os.path.realpath follow the same POSIX algorithm (`walk`; checked against os.path.islink/"
+    "realpath and the mkdtemp/replace arguments on every link case); link theorems assume the destination can be resolved (no cycle: "
+    "hyp_resolvable) and ends in a proper file name (hyp_properBase); shares published in the evidence",
+    "parallel theorems quantify over every marked sequence of temporary-file effects; the tie to the real writer is per observed "
+    "schedule (trace language `parValid`) and, under the deterministic executor, per task-granular schedule",
 ]
 
 CRASH_RC = 17
@@ -120,6 +150,8 @@ class Shim:
         self.payload: dict = {}  # event index -> bytes of a write
         self.nw = 0  # handles opened by workers of the parallel writer
         self.dest_seen: list = []  # destination paths the code derived (from the mkdtemp arguments)
+        self.tmp_parent_seen: list = []  # real directories the temporary directories were created in
+        self.shard_order: list = []  # sharded saves: shard destinations in the order their saves started
         import threading
 
         self.lock = threading.Lock()
@@ -238,8 +270,8 @@ def install(shim: Shim):
             if p == os.path.join(shim.tmpdir, shim.expect.get("base", "?")):
                 return "T/F"
         d = shim.expect.get("dir")
-        if d and os.path.dirname(p) == d:
-            return os.path.basename(p)
+        if d and (os.path.dirname(p) == d or os.path.realpath(os.path.dirname(p)) == os.path.realpath(d)):
+            return os.path.basename(p)  # (the directory may be spelled through a symlinked directory)
         return p
 
     def mkdtemp(suffix=None, prefix=None, dir=None):
@@ -251,6 +283,7 @@ def install(shim: Shim):
         )
         if dir is not None and prefix:
             shim.dest_seen.append(os.path.normpath(os.path.join(dir, prefix[1:-1])))
+            shim.tmp_parent_seen.append(os.path.realpath(dir))
         shim.point(["mkdtemp"] if ok else ["mkdtemp!", str(prefix), str(dir)])
         before = set(os.listdir(dir))
         r = tempfile.mkdtemp(suffix=suffix, prefix=prefix, dir=dir)
@@ -308,13 +341,176 @@ def install(shim: Shim):
         path_over = {n: other(os.path, n) for n in ("islink", "realpath", "exists", "samefile")}
         os_over["path"] = _Proxy(os.path, **path_over)
     _SAVED.clear()
-    for n in ("os", "tempfile", "shutil", "open"):
+    for n in ("os", "tempfile", "shutil", "open", "concurrent"):
         _SAVED[n] = ed.__dict__.get(n, _MISSING)
+    if shim.expect.get("det") is not None:
+        import concurrent.futures as cf
+
+        _DET["seed"] = shim.expect["det"]
+        DetExecutor.seq[0] = 0
+        ed.concurrent = _Proxy(ed.concurrent, futures=_Proxy(cf, ThreadPoolExecutor=DetExecutor, as_completed=det_as_completed))
     ed.os = _Proxy(os, **os_over)
     ed.tempfile = _Proxy(tempfile, mkdtemp=mkdtemp)
     ed.shutil = _Proxy(shutil, **sh_over)
     ed.open = sopen
 
+
+
+# --------------------------------------------------------------------------- deterministic executor
+
+
+class _DetFuture:
+    def __init__(self, ex, fn, a, kw):
+        self.ex, self.fn, self.a, self.kw = ex, fn, a, kw
+        self.state = "pending"  # pending | done | cancelled
+        self.value, self.exc = None, None
+
+    def done(self):
+        return self.state != "pending"
+
+    def cancelled(self):
+        return self.state == "cancelled"
+
+    def cancel(self):
+        if self.state == "pending" and self in self.ex.queue:
+            self.ex.queue.remove(self)
+            self.state = "cancelled"
+            return True
+        return False
+
+    def result(self, timeout=None):
+        import concurrent.futures as cf
+
+        while self.state == "pending":
+            if not self.ex.step():
+                raise RuntimeError("deterministic executor: a pending future can never complete")
+        if self.state == "cancelled":
+            raise cf.CancelledError()
+        if self.exc is not None:
+            raise self.exc
+        return self.value
+
+    def exception(self, timeout=None):
+        try:
+            self.result()
+        except BaseException as e:  # noqa: BLE001
+            return e
+        return None
+
+
+class DetExecutor:
+    """Stand-in for ThreadPoolExecutor inside onnx_ir.external_data (family `det`): real worker threads (so that
+    threading.local gives one handle per worker), but exactly one task runs at a time and the order is drawn from a
+    seeded PRNG. FIFO window as in the real pool: at most max_workers tasks are started and not finished, a new task
+    is started only from the front of the queue; the task that runs next is any started one. After a task failed the
+    tasks that were already started still run (shutdown(wait=True) waits for them); `linger` further queued tasks may
+    start before the caller reacts. Task granularity: the effects of one task are not interleaved with another's."""
+
+    seq = [0]
+
+    def __init__(self, max_workers=None, **_kw):
+        import random
+        import threading
+
+        DetExecutor.seq[0] += 1
+        self.W = max(1, max_workers or 1)
+        self.rng = random.Random(f"{_DET['seed']}/{DetExecutor.seq[0]}")
+        self.queue: list = []
+        self.window: list = []  # (future, worker id)
+        self.threads: dict = {}
+        self.failed = False
+        self.threading = threading
+        self.closed = False
+
+    def submit(self, fn, *a, **kw):
+        f = _DetFuture(self, fn, a, kw)
+        self.queue.append(f)
+        return f
+
+    def _refill(self):
+        while len(self.window) < self.W and self.queue:
+            f = self.queue.pop(0)
+            used = {w for _, w in self.window}
+            wid = min(w for w in range(self.W) if w not in used)
+            self.window.append((f, wid))
+
+    def _worker(self, wid):
+        inbox, outbox = self.threads[wid][1], self.threads[wid][2]
+        while True:
+            f = inbox.get()
+            if f is None:
+                return
+            try:
+                f.value = f.fn(*f.a, **f.kw)
+            except BaseException as e:  # noqa: BLE001  (the real pool stores BaseExceptions in the future as well)
+                f.exc = e
+            f.state = "done"
+            outbox.put(True)
+
+    def step(self) -> bool:
+        """Run one started task to completion. False: nothing left to run."""
+        import queue
+
+        self._refill()
+        if not self.window:
+            return False
+        f, wid = self.window.pop(self.rng.randrange(len(self.window)))
+        if wid not in self.threads:
+            inbox, outbox = queue.Queue(), queue.Queue()
+            t = self.threading.Thread(target=self._worker, args=(wid,), daemon=True)
+            self.threads[wid] = (t, inbox, outbox)
+            t.start()
+        self.threads[wid][1].put(f)
+        self.threads[wid][2].get()
+        if f.exc is not None:
+            self.failed = True
+        return True
+
+    def shutdown(self, wait=True, cancel_futures=False):
+        if self.closed:
+            return
+        if cancel_futures:
+            for f in self.queue:
+                f.state = "cancelled"
+            self.queue = []
+        while self.step():  # started tasks run on; without cancel_futures everything queued runs as well
+            pass
+        self.closed = True
+        for t, inbox, _ in self.threads.values():
+            inbox.put(None)
+        for t, _, _ in self.threads.values():
+            t.join()
+
+    def __enter__(self):
+        return self
+
+    def __exit__(self, *_a):
+        self.shutdown(wait=True)
+        return False
+
+
+def det_as_completed(fs, timeout=None):
+    """as_completed for DetExecutor futures: completion order; after a failure up to `linger` more tasks run
+    before the failed future is handed to the caller."""
+    fs = list(fs)
+    yielded: set = set()
+    while len(yielded) < len(fs):
+        ready = [f for f in fs if f.done() and id(f) not in yielded]
+        if not ready:
+            ex = next(f.ex for f in fs if not f.done())
+            if not ex.step():
+                raise RuntimeError("deterministic executor: nothing to run")
+            ready = [f for f in fs if f.done() and id(f) not in yielded]
+            if any(f.exc is not None for f in ready):
+                for _ in range(ex.rng.choice([0, 0, 1, 2])):
+                    ex.step()
+                ready = [f for f in fs if f.done() and id(f) not in yielded]
+        for f in ready:
+            yielded.add(id(f))
+            yield f
+
+
+_DET: dict = {"seed": None}
 
 _MISSING = object()
 _SAVED: dict = {}
@@ -395,18 +591,48 @@ def _links(case: dict) -> dict:
 
 
 def resolve(case: dict, name: str) -> str:
-    """Root-relative real path of a root-relative name (symlink chains followed; independent of os.path.realpath)."""
+    """Root-relative real path of a root-relative name: POSIX resolution component by component over the case's
+    link table (chains, symlinked directories, `..`; a dangling link resolves to its target name). Independent of
+    os.path.realpath and of the Lean model (`walk`); a cycle returns the name unchanged."""
     links = _links(case)
-    for _ in range(16):
-        if name in links:
-            name = links[name][0]
+    rest, done, n = name.split("/"), [], 0
+    while rest:
+        c = rest.pop(0)
+        if c in ("", "."):
             continue
-        head, _, rest = name.partition("/")
-        if rest and head in links:  # symlinked directory component
-            name = links[head][0] + "/" + rest
+        if c == "..":
+            done = done[:-1]
             continue
-        return name
-    return name
+        p = "/".join(done + [c])
+        if p in links:
+            n += 1
+            if n > 40:
+                return name
+            rest, done = links[p][0].split("/") + rest, []
+        else:
+            done.append(c)
+    return "/".join(done)
+
+
+def _loops(case: dict, name: str) -> bool:
+    links = _links(case)
+    rest, done, n = name.split("/"), [], 0
+    while rest:
+        c = rest.pop(0)
+        if c in ("", "."):
+            continue
+        if c == "..":
+            done = done[:-1]
+            continue
+        p = "/".join(done + [c])
+        if p in links:
+            n += 1
+            if n > 40:
+                return True
+            rest, done = links[p][0].split("/") + rest, []
+        else:
+            done.append(c)
+    return False
 
 
 def _chain_len(case: dict) -> int:
@@ -560,6 +786,11 @@ def _observe(case: dict, root: str, inomap: dict, exts, with_tensors=True) -> di
 
     walk("")
     obs = {"files": files, "tmp": tmp, "links": links}
+    try:  # the bytes reachable through the requested path (every link followed by the kernel)
+        with open(os.path.join(root, case["dest"]), "rb") as fh:
+            obs["reach"] = list(fh.read())
+    except OSError:
+        obs["reach"] = None
     if with_tensors:
         obs["valid"] = [o.valid() for _, o, _ in exts]
         obs["mapped"] = [o.raw is not None for _, o, _ in exts]
@@ -646,10 +877,12 @@ def run_real(case: dict, fault=None, mode="exn") -> dict:
     old_chunk = core._EXTERNAL_TENSOR_COPY_CHUNK_SIZE
     try:
         objs, exts, inomap = _build(case, root)
+        rq = os.path.join(root, case["dest"])
+        pre_os = {"islink": os.path.islink(rq), "realpath": os.path.relpath(os.path.realpath(rq), os.path.realpath(root))}
         core._EXTERNAL_TENSOR_COPY_CHUNK_SIZE = case.get("chunk", old_chunk)
         shim = Shim(fault, mode)
         rd = _rdest(case)
-        shim.expect = {"dir": os.path.normpath(os.path.join(root, os.path.dirname(rd))), "base": os.path.basename(rd), "fd": case.get("file") == "fd", "pathfaults": bool(case.get("pathfaults")), "root": root}
+        shim.expect = {"dir": os.path.normpath(os.path.join(root, os.path.dirname(rd))), "base": os.path.basename(rd), "fd": case.get("file") == "fd", "pathfaults": bool(case.get("pathfaults")), "root": root, "det": case.get("det")}
         if mode in ("crash", "exn-crash"):
             sys.stdout.flush()
             sys.stderr.flush()
@@ -690,6 +923,9 @@ def run_real(case: dict, fault=None, mode="exn") -> dict:
         obs["trace"] = shim.events
         obs["payload"] = {k: list(v) for k, v in shim.payload.items()}
         obs["dest_seen"] = [os.path.relpath(d, root) if os.path.isabs(d) else d for d in shim.dest_seen]
+        obs["tmp_parent_seen"] = [os.path.relpath(d, os.path.realpath(root)) for d in shim.tmp_parent_seen]
+        obs["shard_order"] = list(shim.shard_order)
+        obs["pre_os"] = pre_os
         for _, o, _ in exts:
             o.release()
         return obs
@@ -713,6 +949,7 @@ def _sharded_expect(shim: Shim, case: dict) -> None:
             if prefix == "." + os.path.basename(rn) + ".":
                 shim.expect["base"] = os.path.basename(rn)
                 shim.expect["dir"] = os.path.normpath(os.path.join(shim.expect["root"], os.path.dirname(rn)))
+                shim.shard_order.append(n)
         return real_mkdtemp(suffix=suffix, prefix=prefix, dir=dir)
 
     ed.tempfile = _Proxy(tempfile, mkdtemp=mkdtemp)
@@ -833,6 +1070,94 @@ def model_request(case: dict, faults: list, writer=None) -> dict:
     return req
 
 
+
+GAS = 64  # path-resolution gas given to the model (kernel: 40 nested links; the generators stay far below)
+
+
+def _link_table(case: dict) -> list:
+    """The case's symbolic links as the model wants them: location, absolute?, text (components)."""
+    out = []
+    for name, target, absolute in case.get("links", []):
+        text = target if absolute else os.path.relpath(target, os.path.dirname(name) or ".")
+        out.append([name.split("/"), bool(absolute), text.split("/")])
+    return out
+
+
+def _lext_json(e):
+    return {"path": e["file"].split("/"), "off": e["off"], "len": e["len"]}
+
+
+def _small(case: dict) -> list:
+    return [t for t in case["tensors"] if t["kind"] == "ext" and case["api"] == "save" and len(t["bytes"]) <= case["threshold"]]
+
+
+def uses_links_model(case: dict) -> bool:
+    """Cases that go through the link-level model (`saveL`): a link table, single file, serial writer, no
+    load-first phase, a request that can be resolved."""
+    return bool(case.get("links")) and case["api"] != "sharded" and not case.get("workers") and not _small(case) and not _loops(case, case["dest"])
+
+
+def model_request_L(case: dict, faults: list) -> dict:
+    req = model_request(case, faults)
+    chunk = case.get("chunk", 1 << 20)
+    big = _big(case)
+    allext = [t for t in case["tensors"] if t["kind"] == "ext"] + case.get("bystanders", [])
+    req.update(
+        {
+            "m": "asave.runL",
+            "kind": "saveL",
+            "links": _link_table(case),
+            "gas": GAS,
+            "requested": case["dest"].split("/"),
+            "tensors": [
+                {"off": off, "chunks": _chunks_of(t, chunk), "ext": _lext_json(t["ext"]) if t["kind"] == "ext" else None}
+                for t, off in zip(big, _layout(big))
+            ],
+            "exts": [[t["id"], _lext_json(t["ext"])] for t in allext],
+        }
+    )
+    return req
+
+
+def model_request_shardedL(case: dict, faults: list) -> dict:
+    req = model_request(case, faults)
+    chunk = case.get("chunk", 1 << 20)
+    req.update({"m": "asave.runL", "kind": "shardedL", "links": _link_table(case), "gas": GAS})
+    req["jobs"] = [
+        [d.split("/"), [{"off": off, "chunks": _chunks_of(case["tensors"][i], chunk), "ext": _lext_json(case["tensors"][i]["ext"]) if case["tensors"][i]["kind"] == "ext" else None}
+                        for i, off in zip(idx, _layout([case["tensors"][i] for i in idx]))]]
+        for d, idx in case["jobs"]
+    ]
+    return req
+
+
+def marked_of(obs_or_trace, payload, fault_at=None) -> list:
+    """The writer block of a trace as the model's marked list `[tag, args.., failed, p]`. `fault_at` = (k, p):
+    mark the effect with global index k as failed (for runs whose own trace is not available: crash modes)."""
+    out, started = [], False
+    for k, ev in enumerate(obs_or_trace):
+        name = ev[0]
+        if not started:
+            started = name == "mkdtemp"
+            continue
+        if name.rstrip("!") in _TAIL:
+            break
+        args = list(ev[1:-1])
+        failed = bool(ev[-1])
+        pbytes = 0
+        if name in ("write", "writew"):
+            args[-1] = payload.get(k, payload.get(str(k), []))
+        if fault_at is not None:
+            failed = k == fault_at[0]
+            pbytes = fault_at[1] if failed else 0
+        out.append([name] + args + [failed, pbytes])
+    return out
+
+
+def _canon_links_model(links: list) -> dict:
+    return {"/".join(loc): (os.path.join("<ROOT>", "/".join(t)) if ab else "/".join(t)) for loc, ab, t in links}
+
+
 _UM = [None]
 
 
@@ -895,6 +1220,17 @@ def oracle(part, case: dict, obs: dict, fault, mode: str) -> None:
     dest = _rdest(case)  # the file the (possibly symlinked) destination resolves to
     pre = case["pre"]
     tag = {"case": case, "fault": fault, "mode": mode}
+    if case["api"] != "sharded" and _loops(case, case["dest"]):
+        # D360 (observed, not part of the C08 statement): the request is a cyclic symbolic link; os.path.realpath
+        # gives up and the save replaces a link of the cycle by the new regular file. No data file existed behind
+        # the request; what the statement says about every other file is still checked.
+        if obs.get("links", {}) != {n: _link_text(case, "", n) for n in _links(case)}:
+            part.count("observed_D360_cyclic_link_replaced")
+        for n, f in pre.items():
+            got = obs["files"].get(n)
+            if not f.get("dir") and (got is None or got == "dir" or got[0] == "new" or got[1] != (pre[f["link"]]["bytes"] if "link" in f else f["bytes"])):
+                part.fail(f"{where}:bystander-file-changed", f"pre-existing file {n!r} was changed by the save", tag)
+        return
     # every pre-existing symlink is still the same symlink (a link stays a link)
     for n in _links(case):
         want = _link_text(case, "", n)
@@ -940,6 +1276,9 @@ def oracle(part, case: dict, obs: dict, fault, mode: str) -> None:
     gotb = None if got is None else got[1]
     if gotb != old and gotb != new:
         part.fail(f"{where}:dest-damaged", "destination holds neither its previous bytes nor the complete new bytes", {**tag, "got": gotb})
+    if "reach" in obs and not _loops(case, case["dest"]) and obs["reach"] != old and obs["reach"] != new:
+        # the statement read through the path the caller asked for (the whole chain of links, as it is now)
+        part.fail(f"{where}:reach-damaged", "the bytes reachable through the requested path are neither the previous bytes nor the complete new bytes", {**tag, "got": obs["reach"]})
     if mode in ("crash", "exn-crash"):
         return
     trace = obs["trace"]
@@ -977,6 +1316,9 @@ def oracle(part, case: dict, obs: dict, fault, mode: str) -> None:
         if not v and same:
             via = "hardlink" if tf != dest else "path"
             part.fail(f"{where}:invalidated-backing-intact:{via}", "an external tensor was invalidated although its path still names the very inode it was backed by (its backing file was not replaced)", {**tag, "tensor": t["name"]})
+        if not raised and replaced and not failed_kinds and dest in pre and tf == dest and v and any(t is b for b in _big(case)) and not _loops(case, t["ext"]["file"]):
+            # "iff": a written tensor whose path resolves (by name, through links) to the entry that was replaced
+            part.fail(f"{where}:alias-not-invalidated", "the save returned normally and replaced the file an external tensor's path resolves to, but the tensor is still valid", {**tag, "tensor": t["name"]})
         if raised and not replaced and backed:
             if not v or r != t["bytes"]:
                 part.fail(f"{where}:tensor-broken", "save failed before the replace but an external tensor backed by the destination is invalid or reads other bytes", {**tag, "tensor": t["name"], "read": r})
@@ -989,10 +1331,41 @@ def _same_file(pre, a, b):
     return root(a) is not None and root(a) == root(b)
 
 
+def _shard_image(case, idx):
+    _ALIGN[0] = (case["alignment"], case["align_threshold"]) if case.get("alignment") else None
+    ts = [case["tensors"][i] for i in idx]
+    buf: list = []
+    for t, off in zip(ts, _layout(ts)):
+        b = t["bytes"]
+        if not b:
+            continue
+        if len(buf) < off:
+            buf += [0] * (off - len(buf))
+        buf[off : off + len(b)] = b
+    return buf
+
+
 def _oracle_sharded(part, case, obs, fault, mode, where, tag):
     pre = case["pre"]
     names = [j[0] for j in case["jobs"]]
     clash = [n for n in names if resolve(case, n) in pre]
+    # across the whole multi-file save: a shard destination is absent or holds exactly its complete bytes
+    state = []
+    for n, idx in case["jobs"]:
+        rn = resolve(case, n)
+        got = obs["files"].get(rn)
+        if rn in pre:
+            continue  # pre-existing: covered by bystander-file-changed (never changed)
+        if got is None:
+            state.append(False)
+            continue
+        state.append(True)
+        if got == "dir" or got[1] != _shard_image(case, idx):
+            part.fail(f"{where}:shard-partial", f"shard file {rn!r} holds neither nothing nor exactly the complete bytes of its shard", {**tag, "got": got})
+    if not clash and not case.get("workers") and any(b and not a for a, b in zip(state, state[1:])):
+        part.fail(f"{where}:shard-order", "a later shard file exists although an earlier one is missing (sequential sharded save)", {**tag, "present": state})
+    if not clash and mode not in ("crash", "exn-crash") and obs["raised"] is None and not all(state):
+        part.fail(f"{where}:shard-missing", "the sharded save returned normally but a shard file is missing", {**tag, "present": state})
     if mode not in ("crash", "exn-crash"):
         if clash and (obs["trace"] or obs["raised"] is None):
             part.fail(f"{where}:preflight", "a shard destination existed but the sharded save performed effects or did not raise", tag)
@@ -1066,72 +1439,180 @@ def check_case(part, case: dict, crash: bool = True, only=None) -> None:
         runs.append((f, "exn", run_real(case, f, "exn")))
         if crash and j == 0:
             runs.append((f, "exn-crash", run_real(case, f, "exn-crash")))
-    if case.get("links") and case["api"] != "sharded" and base_obs.get("dest_seen"):
+    linkL = use_model and uses_links_model(case)
+    par = bool(case.get("workers"))  # schedule dependent: the model gets the writer effects each run observed
+    det = case.get("det") is not None  # deterministic executor: the schedule is a function of the seed
+    shL = use_model and case["api"] == "sharded" and bool(case.get("links")) and not par
+    shAll = use_model and case["api"] == "sharded" and par and det
+    tag0 = {"case": case, "fault": None, "mode": "exn"}
+    # per-case model questions, asked in one batch together with the runs (below)
+    pre_reqs: dict = {}
+    if case.get("links") and not case.get("rich") and case["api"] != "sharded" and base_obs.get("dest_seen"):
         # Model `destinationOf` (external_data.py 453-456) vs the destination the code derived
-        table = [[n, t] for n, t, _a in case["links"]]
-        md = lean_batch([{"m": "asave.resolve", "links": table, "requested": case["dest"]}])[0].get("r")
-        seen = base_obs["dest_seen"][0]
-        if md != seen:
-            part.disagree("destination: model != implementation", {"case": case, "fault": None, "mode": "exn"}, md, seen)
+        pre_reqs["resolve"] = {"m": "asave.resolve", "links": [[n, t] for n, t, _a in case["links"]], "requested": case["dest"]}
+    if case.get("links") and case["api"] != "sharded":
+        # Model `destinationPathL` / `destEntryL` / `tmpParentL` / `isLinkL` / `realpathL` (453-457, 467-471, 496)
+        pre_reqs["resolveL"] = {"m": "asave.resolveL", "links": _link_table(case), "gas": GAS, "requested": case["dest"].split("/")}
     if use_model and case["api"] != "sharded":
         # Model `image` (the "complete new bytes" of C08_new_is_image) vs the bytes the real fault-free save wrote
         big = _big(case)
         chunk = case.get("chunk", 1 << 20)
         _ALIGN[0] = (case["alignment"], case["align_threshold"]) if case.get("alignment") else None
         _CASE[0] = case
-        img = lean_batch([{"m": "asave.image", "tensors": [_tensor_json(t, off, chunk) for t, off in zip(big, _layout(big))]}])[0].get("r")
-        real_new = base_obs["files"].get(_rdest(case))
-        if base_obs["raised"] is None and (real_new is None or real_new[1] != img):
-            part.disagree("image: model != bytes written by the fault-free save", {"case": case, "fault": None, "mode": "exn"}, img, real_new)
-    par = bool(case.get("workers"))  # schedule dependent: the model gets the writer effects each run observed
-    reqs = [model_request(case, _as_list(f)) for f, mode, _ in runs if mode == "exn"] if use_model and not par else []
-    use_model_for = lambda mode: use_model and mode != "fnf" and not (par and mode in ("crash", "exn-crash"))  # noqa: E731
-    outs = iter(lean_batch(reqs)) if reqs else iter([])
-    by_fault = {}
-    if par and use_model:
-        idx = [i for i, (f, mode, obs) in enumerate(runs) if mode in ("exn", "base") and len(_as_list(f)) <= 1]
-        answers = lean_batch([model_request(case, _as_list(runs[i][0]), writer=writer_of(runs[i][2])) for i in idx])
-        by_run = dict(zip(idx, answers))
+        tj = [_tensor_json(t, off, chunk) for t, off in zip(big, _layout(big))]
+        pre_reqs["image"] = {"m": "asave.image", "tensors": tj}
+        if par and base_obs["raised"] is None:
+            # the observed schedule of the real parallel writer is a word of the model's trace language (`parValid`)
+            pre_reqs["parvalid"] = {"m": "asave.parvalid", "tensors": tj, "cb": case["cb"], "maxWorkers": case["workers"], "writer": writer_of(base_obs)}
+
+    def after_pre(ans: dict) -> None:
+        if "resolve" in ans:
+            md, seen = ans["resolve"].get("r"), base_obs["dest_seen"][0]
+            if md != seen:
+                part.disagree("destination: model != implementation", tag0, md, seen)
+        if "resolveL" in ans:
+            # hypotheses of the link theorems evaluated on the case; model vs what the code derived and the OS says
+            ml = ans["resolveL"]
+            part.count("hyp_properBase:" + str(ml.get("proper")))
+            part.count("hyp_resolvable:" + str(ml.get("entry") is not None))
+            if "err" in ml:
+                part.disagree("model error " + str(ml["err"]), tag0)
+            elif ml.get("entry") is None:
+                if not _loops(case, case["dest"]):
+                    part.disagree("the model cannot resolve a destination that has no cycle", tag0, ml, None)
+            else:
+                j = "/".join
+                if ml["entryIsLink"]:
+                    part.disagree("model: the entry os.replace overwrites is a symbolic link", tag0, ml, None)
+                if ml["islink"] != base_obs["pre_os"]["islink"]:
+                    part.disagree("islink: model != os.path.islink", tag0, ml["islink"], base_obs["pre_os"]["islink"])
+                if ml["realpath"] is not None and j(ml["realpath"]) != base_obs["pre_os"]["realpath"]:
+                    part.disagree("realpath: model != os.path.realpath", tag0, ml["realpath"], base_obs["pre_os"]["realpath"])
+                if base_obs.get("dest_seen"):
+                    if j(ml["dest"]) != base_obs["dest_seen"][0]:
+                        part.disagree("destination path: model != implementation", tag0, ml["dest"], base_obs["dest_seen"][0])
+                    tp = base_obs["tmp_parent_seen"][0]
+                    tp = "" if tp == "." else tp
+                    if j(ml["tmpParent"] if ml["tmpParent"] is not None else ["?"]) != tp:
+                        part.disagree("directory of the temporary directory: model != implementation", tag0, ml["tmpParent"], tp)
+                    if j(ml["entry"]) != os.path.join(tp, os.path.basename(base_obs["dest_seen"][0])):
+                        part.disagree("entry overwritten by os.replace: model != implementation", tag0, ml["entry"], [tp, base_obs["dest_seen"][0]])
+        if "image" in ans:
+            img = ans["image"].get("r")
+            real_new = base_obs["files"].get(_rdest(case))
+            if base_obs["raised"] is None and (real_new is None or real_new[1] != img):
+                part.disagree("image: model != bytes written by the fault-free save", tag0, img, real_new)
+        if "parvalid" in ans:
+            pv = ans["parvalid"]
+            part.count("parvalid:" + str(pv.get("r")))
+            if pv.get("r") is not True:
+                part.disagree("the writer trace of the parallel writer is not in the model's trace language", tag0, pv, writer_of(base_obs))
+
+    def pmap_of(f):
+        return dict(_as_list(f))
+
+    def mk_req(f, mode, obs):
+        """The model request for one run (None: this run is not compared with the model)."""
+        fl = _as_list(f)
+        if linkL:
+            return model_request_L(case, fl)
+        if shL:
+            return model_request_shardedL(case, fl)
+        if shAll:
+            order = obs.get("shard_order") if mode in ("exn", "base") else base_obs.get("shard_order")
+            if not order or sorted(order) != sorted(j[0] for j in case["jobs"]):
+                order = [j[0] for j in case["jobs"]] if not base_obs.get("shard_order") else base_obs["shard_order"]
+            r = model_request(case, fl)
+            byname = {j[0]: j for j in r["jobs"]}
+            names = {j[0]: resolve(case, j[0]) for j in case["jobs"]}
+            r["kind"] = "shardedAll"
+            r["jobs"] = [byname[names[n]] for n in order if names.get(n) in byname]
+            return r
+        if par and det and case["api"] != "sharded":
+            if mode in ("exn", "base"):
+                pm = pmap_of(f)
+                m = marked_of(obs["trace"], obs["payload"])
+                k0 = 1  # global index of the first effect of the block
+                for i, x in enumerate(m):
+                    if x[-2]:
+                        x[-1] = pm.get(k0 + i, 0)
+            else:
+                if len(fl) != 1:
+                    return None
+                m = marked_of(trace0, base_obs["payload"], fault_at=fl[0])
+            r = model_request(case, fl, writer=[])
+            r["kind"] = "marked"
+            r["writer"] = m
+            return r
+        if par:
+            if mode not in ("exn", "base") or len(fl) > 1:
+                # real thread pool + several faults / a process exit: the indices depend on how far the other
+                # workers got (not reproducible) -> oracle only
+                return None
+            return model_request(case, fl, writer=writer_of(obs))
+        return model_request(case, fl)
+
+    jobs_idx, reqs = [], []
+    for ri, (f, mode, obs) in enumerate(runs):
+        if not use_model or mode == "fnf":
+            continue
+        r = mk_req(f, mode, obs)
+        if r is not None:
+            jobs_idx.append(ri)
+            reqs.append(r)
+    pre_keys = list(pre_reqs)
+    answers = lean_batch([pre_reqs[k] for k in pre_keys] + reqs) if (pre_keys or reqs) else []
+    after_pre(dict(zip(pre_keys, answers[: len(pre_keys)])))
+    by_run = dict(zip(jobs_idx, answers[len(pre_keys) :]))
     allext = [t for t in case["tensors"] if t["kind"] == "ext"] + case.get("bystanders", [])
     exts_desc = [t["ext"] for t in allext]
     next0 = len([1 for f in case["pre"].values() if "link" not in f])
-    for f, mode, obs in runs:
-        if mode == "exn" and use_model and not par:
-            by_fault[f] = next(outs)
+    boundaries = set()
+    if case["api"] == "sharded":  # first effect of every shard save but the first: "between shard i and shard i+1"
+        boundaries = {k for k, ev in enumerate(trace0) if ev[0].startswith("mkdtemp") and k > 0}
     for ri, (f, mode, obs) in enumerate(runs):
+        mo = by_run.get(ri)
         part.case(
             [case, f, mode],
             nontrivial=True,
             sample={"case": case, "fault": f, "mode": mode, "real_trace": obs.get("trace")} if f == (3, 0) and mode == "exn" else None,
             api=case["api"],
             mode=mode,
-            compared_with_model=use_model,
+            compared_with_model=mo is not None,
+            model_kind=("none" if mo is None else "links" if linkL else "sharded-links" if shL else "sharded-all" if shAll else "marked" if (par and det) else "writer" if par else case["api"]),
             variant=case.get("label", "plain"),
             dest_exists=_rdest(case) in case["pre"],
             link_chain=_chain_len(case),
             kinds="+".join(sorted({t["kind"] for t in case["tensors"]})),
             fault_at=_fault_name(obs if "trace" in obs else {"trace": trace0}, f),
+            shard_boundary=bool(boundaries & {k for k, _ in _as_list(f)}),
             n_effects=min(len(trace0), 40) // 5 * 5,
+            shards_queued=(case["api"] == "sharded" and bool(case.get("workers")) and len(case.get("jobs", [])) > case["workers"]),
         )
         oracle(part, case, obs, f, mode)
-        if not use_model_for(mode) or (par and len(_as_list(f)) > 1):
-            # parallel writer + several faults: the index of the second fault depends on how far the other
-            # workers got after the first one (the model stops the block there) -> oracle only
-            continue
-        mo = by_run[ri] if par else by_fault.get(f)
+        if det and par and mode in ("exn", "base") and f is not None:
+            k0 = min(k for k, _ in _as_list(f))
+            if [e[:-1] for e in obs["trace"][:k0]] != [e[:-1] for e in trace0[:k0]]:
+                part.disagree("deterministic executor: the schedule before the fault is not the fault-free schedule", {"case": case, "fault": f, "mode": mode}, trace0[:k0], obs["trace"][:k0])
         if mo is None:
-            mo = by_fault[f] = lean_batch([model_request(case, _as_list(f))])[0]
-        if "err" in mo:
-            part.disagree("model error " + str(mo["err"]), {"case": case, "fault": f})
             continue
+        tagr = {"case": case, "fault": f, "mode": mode}
+        if "err" in mo:
+            part.disagree("model error " + str(mo["err"]), tagr)
+            continue
+        if mo.get("unresolvable"):
+            part.disagree("the model cannot resolve the destination", tagr)
+            continue
+        cleanup_failed = any(ev[0].rstrip("!") in ("remove", "rmdir") and ev[-1] for ev in obs.get("trace", []))
         if mode in ("exn", "base"):
             mtrace = [list(x) for x in mo["trace"]]
-            # parallel writer: after a worker's failure the other workers run on until the pool is shut down,
-            # the model leaves the block at once: the traces are compared for fault-free runs only
-            if mtrace != obs["trace"] and not (par and f is not None):
-                part.disagree("effect trace: model != implementation", {"case": case, "fault": f, "mode": mode}, mtrace, obs["trace"])
+            # real thread pool: after a worker's failure the other workers run on until the pool is shut down, the
+            # `writer` model kind leaves the block at once: traces compared for fault-free runs only (the `marked`
+            # kind of the deterministic executor replays the whole block and is compared always)
+            if mtrace != obs["trace"] and not (par and not det and f is not None):
+                part.disagree("effect trace: model != implementation", tagr, mtrace, obs["trace"])
             if mo["raised"] != (obs["raised"] is not None):
-                part.disagree("raised: model != implementation", {"case": case, "fault": f, "mode": mode}, mo["raised"], obs["raised"])
+                part.disagree("raised: model != implementation", tagr, mo["raised"], obs["raised"])
             ms = _canon_model_state(mo["final"], next0, exts_desc)
             real = {
                 "files": {k: v for k, v in obs["files"].items()},
@@ -1141,14 +1622,24 @@ def check_case(part, case: dict, crash: bool = True, only=None) -> None:
                 "reads": obs["reads"],
             }
             mmem = ms.pop("mem")
+            if shAll and (cleanup_failed or len(_as_list(f)) > 1):
+                # the model has one temporary directory: a leftover of an earlier shard is reused by the next one
+                ms.pop("tmp"), real.pop("tmp")
             if ms != real:
-                part.disagree("post-state: model != implementation", {"case": case, "fault": f, "mode": mode}, ms, real)
+                part.disagree("post-state: model != implementation", tagr, ms, real)
+            if linkL:
+                if _canon_links_model(mo["final"]["links"]) != obs["links"]:
+                    part.disagree("symbolic links after the save: model != implementation", tagr, mo["final"]["links"], obs["links"])
+                if mo["final"]["reach"] != obs["reach"]:
+                    part.disagree("bytes through the requested path: model != implementation", tagr, mo["final"]["reach"], obs["reach"])
+                if not mo["linksKept"]:
+                    part.disagree("model: a visited state has a changed link table", tagr)
             if case["api"] == "save" and obs["raised"] is None:
                 # memory copies of the small external tensors (model: St.mem) vs the bytes embedded in m.onnx
                 want = {t["name"]: m for t, m in zip(allext, mmem) if m is not None}
                 got = {n: b for n, b in obs.get("embedded", {}).items() if n in {t["name"] for t in allext}}
                 if want != got:
-                    part.disagree("memory copies of small external tensors: model != implementation", {"case": case, "fault": f, "mode": mode}, want, got)
+                    part.disagree("memory copies of small external tensors: model != implementation", tagr, want, got)
         else:
             st = mo["crash"] if mo["crash"] is not None else mo["final"]
             if mode == "exn-crash":
@@ -1159,8 +1650,17 @@ def check_case(part, case: dict, crash: bool = True, only=None) -> None:
             real = {"files": obs["files"], "tmp": _canon_real_tmp(obs, case)}
             if obs["rc"] != CRASH_RC:
                 part.disagree("crash run did not reach the fault point", {"case": case, "fault": f}, None, obs["rc"])
+            if shAll and len(_as_list(f)) > 1:
+                # several faults across concurrent shards: the model has one temporary directory (a leftover of an
+                # earlier shard is reused by the next one), the listing of leftovers is not compared
+                ms["tmp"], real["tmp"] = [], []
             if {"files": ms["files"], "tmp": ms["tmp"]} != real:
-                part.disagree("crash state: model != implementation", {"case": case, "fault": f, "mode": mode}, ms, real)
+                part.disagree("crash state: model != implementation", tagr, ms, real)
+            if linkL:
+                if _canon_links_model(st["links"]) != obs["links"]:
+                    part.disagree("symbolic links at the crash point: model != implementation", tagr, st["links"], obs["links"])
+                if st["reach"] != obs["reach"]:
+                    part.disagree("bytes through the requested path at the crash point: model != implementation", tagr, st["reach"], obs["reach"])
 
 
 # --------------------------------------------------------------------------- generators
@@ -1433,7 +1933,7 @@ def gen_edge(rng) -> dict:
             case["dest"] = "ld/" + dest
             if old is not None:
                 pre["sub/" + dest] = old
-            case["model"] = False  # the model has no directory links
+            case["rich"] = True  # a symlinked parent directory: link-level model (`saveL`)
     elif kind == "natural":
         srcs = [n for n in pre if "link" not in pre[n]]
         if not srcs:
@@ -1474,6 +1974,129 @@ def gen_edge(rng) -> dict:
         case["pathfaults"] = True
         case["model"] = False
     return finalize(case)
+
+
+
+def gen_links_rich(rng) -> dict:
+    """Symbolic links as file-system objects (model `saveL`): the request goes through a symlinked parent directory
+    and/or a chain of 0..4 links (relative texts with `..`, absolute texts, links inside sub-directories), the chain may
+    end in an existing file or dangle; external tensors spell the data file through the request, through other
+    aliases (directory link, a link with `..`), through the real name or through a hard link. Sometimes the chain is
+    a cycle (oracle only: the model does not resolve it)."""
+    api = rng.choice(["convert", "convert", "save"])
+    real = rng.choice(["store/w.bin", "sub/deep/w.bin", "w-v1.bin"])
+    links, dirs = [], ["sub", "store", "sub/deep"]
+    base = rng.choice(["model.data", "m.data"])
+    shape = rng.choice(["dirlink", "dirlink+chain", "chain", "chain", "dotdot", "dangling-chain", "plain-in-dirlink", "cycle"])
+    fb = [rng.randrange(256) for _ in range(rng.choice([4, 12, 30]))]
+    pre = {}
+    exists = shape not in ("dangling-chain",) and rng.random() < 0.85
+    aliases = []
+    if shape == "plain-in-dirlink":
+        # ld -> sub ; request ld/<base>, a regular file (or absent) behind a symlinked directory
+        links.append(["ld", "sub", rng.random() < 0.3])
+        dest, real = "ld/" + base, "sub/" + base
+        aliases = [dest, real]
+    elif shape == "dirlink":
+        # ld -> sub ; sub/<base> -> real
+        links.append(["ld", "sub", rng.random() < 0.3])
+        links.append(["sub/" + base, real, rng.random() < 0.3])
+        dest = "ld/" + base
+        aliases = [dest, "sub/" + base, real]
+    elif shape == "dirlink+chain":
+        links.append(["ld", "sub", False])
+        links.append(["sub/" + base, "store/latest.data", rng.random() < 0.3])
+        links.append(["store/latest.data", "current.data", rng.random() < 0.3])
+        links.append(["current.data", real, rng.random() < 0.3])
+        dest = "ld/" + base
+        aliases = [dest, "sub/" + base, "store/latest.data", "current.data", real]
+    elif shape == "chain":
+        n = rng.choice([1, 2, 3, 4])
+        mids = rng.sample(["current.data", "sub/alias.data", "store/latest.data", "sub/deep/x.data"], n - 1)
+        names = [base] + mids + [real]
+        links += [[names[i], names[i + 1], rng.random() < 0.3] for i in range(n)]
+        dest = base
+        aliases = names
+    elif shape == "dotdot":
+        # sub/deep/<base> -> ../../store/w.bin (relative text with ..), reached through up -> sub/deep
+        real = "store/w.bin"
+        links.append(["up", "sub/deep", False])
+        links.append(["sub/deep/" + base, real, False])
+        dest = "up/" + base
+        aliases = [dest, "sub/deep/" + base, real, "up/../deep/" + base]
+    elif shape == "dangling-chain":
+        n = rng.choice([1, 2, 3])
+        mids = rng.sample(["current.data", "sub/alias.data", "store/latest.data"], n - 1)
+        names = [base] + mids + [rng.choice(["store/new.bin", "sub/deep/new.bin"])]
+        links += [[names[i], names[i + 1], rng.random() < 0.3] for i in range(n)]
+        dest, real = base, names[-1]
+        aliases = []
+    else:  # cycle
+        links += [[base, "current.data", False], ["current.data", base, False]]
+        dest, real, exists = base, base, False
+        aliases = []
+    if exists:
+        pre[real] = {"bytes": fb, "mode": rng.choice([0o644, 0o600, 0o640])}
+    hard = exists and rng.random() < 0.3
+    if hard:
+        pre["hard.data"] = {"link": real}
+    if rng.random() < 0.4:
+        pre["other.data"] = {"bytes": [rng.randrange(256) for _ in range(6)], "mode": 0o644}
+    if exists and rng.random() < 0.3:
+        # one more alias: a link whose relative text climbs with `..`
+        links.append(["sub/deep/back.data", real, False])
+        aliases.append("sub/deep/back.data")
+    tensors = []
+    for i in range(rng.choice([1, 2, 3])):
+        k = rng.choice(["ext", "ext", "mem", "chunky", "lazy"]) if exists else rng.choice(["mem", "chunky", "lazy"])
+        t = {"kind": k, "name": f"t{i}", "id": i}
+        if k == "ext":
+            src = rng.choice(aliases + (["hard.data"] if hard else []) + (["other.data"] if "other.data" in pre else []))
+            b = pre["other.data"]["bytes"] if src == "other.data" else fb
+            ln = rng.randrange(1, len(b) + 1)
+            off = rng.randrange(0, len(b) - ln + 1)
+            t["ext"] = {"file": src, "off": off, "len": ln, "mapped": rng.random() < 0.5, "abs": (hard and src != "other.data") or rng.random() < 0.3}
+            t["bytes"] = b[off : off + ln]
+        else:
+            n = rng.choice([1, 3, 7, 16])
+            t["bytes"] = [rng.randrange(256) for _ in range(n)]
+            if k == "chunky":
+                c = rng.randrange(1, n + 1)
+                t["sizes"] = [c, n - c] if n - c else [c]
+        tensors.append(t)
+    case = {"api": api, "dest": dest, "pre": pre, "links": links, "dirs": dirs, "tensors": tensors, "threshold": 0,
+            "cb": rng.random() < 0.3, "chunk": rng.choice([4, 1 << 20]), "label": "rich-" + shape, "rich": True}
+    if shape == "cycle":
+        case["model"] = False
+    if exists and aliases and rng.random() < 0.4:
+        src = rng.choice(aliases)
+        ln = rng.randrange(1, len(fb) + 1)
+        case["bystanders"] = [{"kind": "ext", "name": "by", "id": 99, "bytes": fb[:ln], "ext": {"file": src, "off": 0, "len": ln, "mapped": rng.random() < 0.5, "abs": hard}}]
+    return finalize(case)
+
+
+def gen_parallel_det(rng) -> dict:
+    """The parallel writer under the deterministic executor (family `det`): every fault position, exception and
+    process exit, several faults — compared with the model's `saveMarked` on the marked writer block."""
+    case = gen_parallel(rng)
+    case["det"] = rng.randrange(1 << 30)
+    case["label"] = "parallel-det"
+    return case
+
+
+def gen_sharded_det(rng) -> dict:
+    """Concurrent shard drivers (max_workers 2..4, >= 2 shards) under the deterministic executor: model `saveShardedAll`."""
+    for _ in range(200):
+        case = gen_sharded(rng)
+        if len(case["jobs"]) >= 2 and not case.get("links"):
+            break
+    case["workers"] = rng.choice([2, 3, 4])
+    if len(case["jobs"]) >= 3 and rng.random() < 0.6:
+        case["workers"] = 2  # more shards than drivers: some shard saves are still queued when another one fails
+    case["det"] = rng.randrange(1 << 30)
+    case["model"] = len(case["jobs"]) >= 2
+    case["label"] = "sharded-det"
+    return case
 
 
 def gen_nul(rng) -> dict:
@@ -1672,6 +2295,12 @@ def run(ctx: Ctx) -> None:
         cases.append(gen_parallel(ctx.rng))
     for _ in range(ctx.pick(18, 180)):
         cases.append(gen_edge(ctx.rng))
+    for _ in range(ctx.pick(28, 260)):
+        cases.append(gen_links_rich(ctx.rng))
+    for _ in range(ctx.pick(10, 100)):
+        cases.append(gen_parallel_det(ctx.rng))
+    for _ in range(ctx.pick(10, 100)):
+        cases.append(gen_sharded_det(ctx.rng))
     base = _new_base()
     try:
         wp = Part()
